@@ -47,6 +47,42 @@ def exhaustive(rng, maxn):
     return out
 
 
+def mk_stderr(rng, cap, xs, fail):
+    """Map under Try wired through pipe.StdErr: the error channel is read by the library's own reader"""
+    cfg = "stage=StdErrMap mode=try cap=%d fail=%s" % (cap, ",".join(map(str, fail)))
+    sends = ["s%d" % x for x in xs] + ["c0"]
+    recvs = ["r0"] * rng.randrange(0, len(xs) + 1)
+    return cfg + " | " + " ".join(ls.interleave(rng, [sends, recvs]) + ["r0"] * (len(xs) + 3) + ["z"])
+
+
+def gen_stderr(rng, n, maxlen):
+    out = []
+    for _ in range(n):
+        k = rng.randrange(1, maxlen + 1)
+        xs = rng.sample(range(1, 40), k)
+        out.append(mk_stderr(rng, rng.choice([0, 0, 1, 2]), xs, [x for x in xs if rng.random() < 0.6]))
+    return out
+
+
+def evaluate_stderr(script, tr):
+    cfg = tr.cfg
+    fail = set(int(x) for x in cfg.get("fail", "").split(",") if x)
+    xs = tr.sent.get(0, [])
+    want = [ls.f_map(x) for x in xs if x not in fail]
+    vs = []
+    key = {"stage": "StdErrMap", "mode": "try"}
+    if 0 in tr.closed:
+        if tr.values(0) != want:
+            vs.append(vlib.Violation("impl", "Map/try through StdErr with failing %s on %s: delivered %s, expected %s" % (sorted(fail), xs, tr.values(0), want), case=script, key=key))
+    elif 0 in tr.closed_in:
+        vs.append(vlib.Violation("impl", "Map/try through StdErr with failing %s: value channel not closed after the input ended although the error channel is read by StdErr (stage blocked on its error channel?)" % sorted(fail),
+                                 case=script, got=tr.recv.get(0), key=key))
+    for pos, n in tr.census:
+        if 0 in tr.closed and n != 0:
+            vs.append(vlib.Violation("impl", "StdErr: %d goroutine(s) alive after the value channel closed" % n, case=script, key=key))
+    return vs
+
+
 def image(st, x):
     return ls.g_fmap(x) if st == "FMap" else [ls.f_map(x)]
 
@@ -99,7 +135,7 @@ def run(ctx):
         scripts = [json.load(open(ctx.replay))["case"]]
     else:
         scripts = exhaustive(ctx.rng, 5 if ctx.thorough() else 3) + gen(ctx.rng, 3000 if ctx.thorough() else 300, 8)
-    trs = ls.judge(ctx, scripts, evaluate, record=False)
+    trs = ls.judge(ctx, scripts, evaluate, record=False) if not (ctx.replay and "StdErrMap" in scripts[0]) else []
     for s, tr in zip(scripts, trs):
         if tr is not None:
             c = tr.cfg
@@ -107,5 +143,11 @@ def run(ctx):
             nf = len([x for x in c.get("fail", "").split(",") if x])
             ctx.hist("failing", nf)
             ctx.count(s, nontrivial=bool(tr.sent.get(0)) and nf > 0)
+    if not ctx.replay or "StdErrMap" in scripts[0]:
+        sscripts = scripts if ctx.replay else gen_stderr(ctx.rng, 1500 if ctx.thorough() else 200, 8)
+        strs = ls.judge(ctx, sscripts, evaluate_stderr, record=False)
+        for s2, tr in zip(sscripts, strs):
+            if tr is not None:
+                ctx.count(s2, nontrivial=True)
     from checks import C07x
     C07x.run_extra(ctx)
